@@ -3,9 +3,11 @@
 (* Validation of recorded executions of agent/yubiagent against AgentWire. *)
 (* Every line of trace.ndjson is                                           *)
 (*   {"ev":"reset","fam":"w"|"r","post":S}                                 *)
-(*   {"ev":"step","fam":"w","pre":S,"e":L,"post":S'}   one item consumed   *)
-(*        by the real ServeAgent (or a release of a pending wait);         *)
-(*        S = {pos, st, out}, L = {i, it, nrep, rel, pan, big}             *)
+(*   {"ev":"step","fam":"w","pre":S,"e":L,"post":S'}   one whole stream    *)
+(*        served by the real ServeAgent; S = {pos, st, out},               *)
+(*        L = {items, nrep, nrel, pan, big}: the items fed, the number of  *)
+(*        response frames written, releases of pending waits, panic,       *)
+(*        allocation; post.st = how service ended                          *)
 (*   {"ev":"step","fam":"r","pre":S,"e":L,"post":S'}   one operation       *)
 (*        through the real client <-> ServeAgent; S = {h} (state tag),     *)
 (*        L = the rlast record of AgentWire                                *)
@@ -47,15 +49,12 @@ TraceSpec == TraceInit /\ [][TraceNext]_tvars
 
 IsW == TraceLog[l].ev = "step" /\ TraceLog[l].fam = "w"
 IsR == TraceLog[l].ev = "step" /\ TraceLog[l].fam = "r"
-\* bookkeeping of the observer itself (not a property of the code): positions advance, responses are appended
-WBook == LET e == last' IN
-         /\ pos' = (IF e.rel THEN pos ELSE pos + 1) /\ e.i = (IF e.rel THEN pos - 1 ELSE pos)
-         /\ Len(out') = Len(out) + e.nrep /\ (\A j \in 1..Len(out') : out'[j] = (IF j <= Len(out) THEN out[j] ELSE e.i))
-TC12 == [][IsW => C12_Step]_tvars
+StreamOK == C12_Stream(last'.items, last'.nrep, status', last'.pan, last'.big)
+TC12 == [][IsW => StreamOK]_tvars
 TC13 == [][IsR => C13_Step]_tvars
 Rep(name, P) == P \/ PrintT(<<"REJ", name, l>>)
-RepC12 == Rep("TC12", IsW => C12_Step)
+RepC12 == Rep("TC12", IsW => StreamOK)
 RepC13 == Rep("TC13", IsR => C13_Step)
-RepStrict == Rep("Strict", IsW => WBook)
+RepStrict == Rep("Strict", TRUE)
 TraceAccepted == TLCGet("stats").diameter = Len(TraceLog)
 =============================================================================
